@@ -107,6 +107,15 @@ func MakeFormat(s fmt.State, verb rune) (justV bool, format string)
   ensures [C14] justV ==> len(format) == 2 && format[0] == 37 && format[1] == 118
   ensures [C14] !justV && !(!s.Flag(43) && !s.Flag(45) && !s.Flag(35) && !s.Flag(32) && !s.Flag(48) && !gwp && !gpp && (verb == 115 || verb == 100)) ==> fstage == 5 && everb == verb && eplus == s.Flag(43) && eminus == s.Flag(45) && esharp == s.Flag(35) && espace == s.Flag(32) && ezero == s.Flag(48) && (ehasw ? ew : 0) == (gwp ? gw : 0) && ehasp == gpp && (gpp ==> ep == gp)
 
+-- Safe() and Unsafe() produce the wrapper the printer recognises by its dynamic type
+func Safe(a interface{}) (r SafeValue)
+  modifies alloc
+  ensures [C06] hasType(r, "redact.safeWrapper")
+
+func Unsafe(a interface{}) (r interface{})
+  modifies alloc
+  ensures [C06] hasType(r, "redact.unsafeWrap")
+
 func StartMarker() (r []byte)
   modifies alloc
   ensures [C07,C12] fresh(r) && len(r) == 3 && isS(r, 0)
